@@ -1,6 +1,1465 @@
-//! C18 — stub (not built yet).
-use crate::engine::*;
+//! C18 — Base16/32/64 codecs are exact inverses and accept only well-formed
+//! text.
+//!
+//! Oracle: an independent RFC 4648 codec (`rfc4648.rs`, checked against the
+//! RFC's own test vectors by unit tests) configured per library module from
+//! that module's documentation; every character string is classified
+//! canonical / noncanonical-trailing-bits / invalid and only the first and
+//! the last class have a demanded outcome (RFC 4648 §3.5 lets a decoder
+//! accept or reject non-zero pad bits).
+pub mod rfc4648;
 
-pub fn prop() -> Option<Prop> {
-    None
+use self::rfc4648 as rf;
+use self::rfc4648::{Class, Pad, Spec};
+use crate::engine::*;
+use crate::gen::*;
+use crate::{vensure, vfail};
+use arbitrary::Unstructured;
+use domain::base::name::{Name, ToName};
+use domain::base::scan::{ConvertSymbols, EntrySymbol, IterScanner, Scanner, StrError, Symbol};
+use domain::rdata::nsec3::{Nsec3Salt, OwnerHash};
+use domain::rdata::ZoneRecordData;
+use domain::utils::base64::DecodeError;
+use domain::utils::{base16, base32, base64};
+use domain::zonefile::inplace::{Entry, Zonefile};
+use std::collections::BTreeMap;
+use std::str::FromStr;
+
+//------------ The codec table -------------------------------------------------
+
+#[derive(Clone, Copy, Debug, PartialEq, Eq, Hash)]
+pub enum Codec {
+    B16,
+    B32Hex,
+    B64,
+}
+use Codec::*;
+
+/// One row per RFC 4648 encoding the property statement names. `lib` is the
+/// library codec that implements it (None = nothing to test at this commit);
+/// `spec` is the reference configured with the convention the library module
+/// documents:
+///
+/// * base16.rs: "just a normal hex-encoding using the (case-insensitive)
+///   letters 'A' to 'F'"; `finalize` fails on a pending half octet. Base16
+///   never needs padding, so `Required` and `Forbidden` coincide ('=' is
+///   always invalid).
+/// * base32.rs: "currently only implements base32hex"; `Decoder`: "The
+///   decoder does not support padding"; `display_hex` writes no '='; module
+///   doc: "essentially a case-insensitive version of base64"; `finalize`
+///   accepts pending groups of 2, 4, 5, 7 symbols and fails on 1, 3, 6.
+/// * base64.rs: "only the original base64 variant"; `display` pads to a
+///   multiple of four; `finalize`: "next is either 0 or 0xF0 for a completed
+///   group", anything else is `ShortInput` => padding is required.
+pub struct Row {
+    pub name: &'static str,
+    pub spec: Spec,
+    pub lib: Option<Codec>,
+}
+pub const TABLE: [Row; 4] = [
+    Row { name: "b16", spec: rf::RFC_B16.with(Pad::Required, true), lib: Some(B16) },
+    Row { name: "b32hex", spec: rf::RFC_B32HEX.with(Pad::Forbidden, true), lib: Some(B32Hex) },
+    Row { name: "b64", spec: rf::RFC_B64, lib: Some(B64) },
+    // Standard-alphabet Base32: the statement names it, the library has no
+    // implementation (base32.rs module doc). When one appears, add a Codec
+    // variant, its adaptor arms below and set `lib` here.
+    Row { name: "b32", spec: rf::RFC_B32, lib: None },
+];
+const CODECS: [Codec; 3] = [B16, B32Hex, B64];
+
+impl Codec {
+    fn row(self) -> &'static Row {
+        TABLE.iter().find(|r| r.lib == Some(self)).unwrap()
+    }
+    fn spec(self) -> &'static Spec {
+        &self.row().spec
+    }
+    fn name(self) -> &'static str {
+        self.row().name
+    }
+    /// Octets per full block of symbols.
+    fn block_octets(self) -> usize {
+        self.spec().block() * self.spec().bits as usize / 8
+    }
+}
+
+//------------ Library adaptors ------------------------------------------------
+
+fn lib_encode(c: Codec, d: &[u8]) -> String {
+    match c {
+        B16 => base16::encode_string(d),
+        B32Hex => base32::encode_string_hex(d),
+        B64 => base64::encode_string(d),
+    }
+}
+fn lib_display(c: Codec, d: &[u8]) -> String {
+    let mut s = String::new();
+    match c {
+        B16 => base16::display(d, &mut s),
+        B32Hex => base32::display_hex(d, &mut s),
+        B64 => base64::display(d, &mut s),
+    }
+    .expect("fmt::Write for String never fails");
+    s
+}
+fn lib_encode_display(c: Codec, d: &[u8]) -> String {
+    match c {
+        B16 => base16::encode_display(d).to_string(),
+        B32Hex => base32::encode_display_hex(&d).to_string(),
+        B64 => base64::encode_display(&d).to_string(),
+    }
+}
+fn lib_decode(c: Codec, t: &str) -> Result<Vec<u8>, DecodeError> {
+    match c {
+        B16 => base16::decode::<Vec<u8>>(t),
+        B32Hex => base32::decode_hex::<Vec<u8>>(t),
+        B64 => base64::decode::<Vec<u8>>(t),
+    }
+}
+fn lib_decode_bytes(c: Codec, t: &str) -> Result<Vec<u8>, DecodeError> {
+    match c {
+        B16 => base16::decode::<bytes::Bytes>(t),
+        B32Hex => base32::decode_hex::<bytes::Bytes>(t),
+        B64 => base64::decode::<bytes::Bytes>(t),
+    }
+    .map(|b| b.to_vec())
+}
+fn lib_serde_ser(c: Codec, d: &Vec<u8>) -> Result<String, String> {
+    let v = match c {
+        B16 => base16::serde::serialize(d, serde_json::value::Serializer),
+        B32Hex => base32::serde::serialize(d, serde_json::value::Serializer),
+        B64 => base64::serde::serialize(d, serde_json::value::Serializer),
+    }
+    .map_err(|e| e.to_string())?;
+    v.as_str().map(|s| s.to_string()).ok_or_else(|| format!("not a string: {v}"))
+}
+fn lib_serde_de(c: Codec, t: &str) -> Result<Vec<u8>, String> {
+    let v = serde_json::Value::String(t.to_string());
+    match c {
+        B16 => base16::serde::deserialize::<Vec<u8>, _>(v),
+        B32Hex => base32::serde::deserialize::<Vec<u8>, _>(v),
+        B64 => base64::serde::deserialize::<Vec<u8>, _>(v),
+    }
+    .map_err(|e| e.to_string())
+}
+
+/// The incremental decoders behind one face.
+trait Dec: Sized {
+    fn mk() -> Self;
+    fn push_ch(&mut self, ch: char) -> Result<(), DecodeError>;
+    fn fin(self) -> Result<Vec<u8>, DecodeError>;
+}
+macro_rules! dec_impl {
+    ($ty:ty, $new:expr) => {
+        impl Dec for $ty {
+            fn mk() -> Self {
+                $new
+            }
+            fn push_ch(&mut self, ch: char) -> Result<(), DecodeError> {
+                self.push(ch)
+            }
+            fn fin(self) -> Result<Vec<u8>, DecodeError> {
+                self.finalize().map(|o| {
+                    let s: &[u8] = o.as_ref();
+                    s.to_vec()
+                })
+            }
+        }
+    };
+}
+/// Capacity of the bounded target used to reach the `ShortBuf` paths.
+const SMALL: usize = 7;
+type Small = octseq::Array<SMALL>;
+dec_impl!(base16::Decoder<Vec<u8>>, base16::Decoder::new());
+dec_impl!(base32::Decoder<Vec<u8>>, base32::Decoder::new_hex());
+dec_impl!(base64::Decoder<Vec<u8>>, base64::Decoder::new());
+dec_impl!(base16::Decoder<Small>, base16::Decoder::new());
+dec_impl!(base32::Decoder<Small>, base32::Decoder::new_hex());
+dec_impl!(base64::Decoder<Small>, base64::Decoder::new());
+
+/// What `decode()` does: push until the first error, then finalize.
+fn drive_stop<D: Dec>(pieces: &[String]) -> Result<Vec<u8>, DecodeError> {
+    let mut d = D::mk();
+    for p in pieces {
+        for ch in p.chars() {
+            d.push_ch(ch)?;
+        }
+    }
+    d.fin()
+}
+
+struct Proto {
+    /// Per pushed character: None = Ok, Some(e) = Err(e).
+    results: Vec<Option<DecodeError>>,
+    fin: Result<Vec<u8>, DecodeError>,
+}
+
+/// Pushes every character whatever `push` returns (the decoders document:
+/// "It is okay to push more data after the first error. The method will
+/// just keep returning errors."), then finalizes.
+fn drive_all<D: Dec>(pieces: &[String]) -> Proto {
+    let mut d = D::mk();
+    let mut results = vec![];
+    for p in pieces {
+        for ch in p.chars() {
+            results.push(d.push_ch(ch).err());
+        }
+    }
+    Proto { results, fin: d.fin() }
+}
+
+fn run_conv<C: ConvertSymbols<EntrySymbol, StrError>>(mut conv: C, pieces: &[String], eot: bool) -> Result<Vec<u8>, String> {
+    let mut out = vec![];
+    for p in pieces {
+        for ch in p.chars() {
+            if let Some(d) = conv.process_symbol(EntrySymbol::Symbol(Symbol::Char(ch))).map_err(|e| e.to_string())? {
+                out.extend_from_slice(d);
+            }
+        }
+        if eot {
+            if let Some(d) = conv.process_symbol(EntrySymbol::EndOfToken).map_err(|e| e.to_string())? {
+                out.extend_from_slice(d);
+            }
+        }
+    }
+    if let Some(d) = conv.process_tail().map_err(|e| e.to_string())? {
+        out.extend_from_slice(d);
+    }
+    Ok(out)
+}
+/// SymbolConverter fed symbol by symbol; `eot` inserts an EndOfToken after
+/// every piece (what `scan_entry_symbols` does at token boundaries).
+fn lib_convert(c: Codec, pieces: &[String], eot: bool) -> Result<Vec<u8>, String> {
+    match c {
+        B16 => run_conv(base16::SymbolConverter::new(), pieces, eot),
+        B32Hex => run_conv(base32::SymbolConverter::new(), pieces, eot),
+        B64 => run_conv(base64::SymbolConverter::new(), pieces, eot),
+    }
+}
+/// `IterScanner::convert_entry` over the pieces as tokens.
+fn iter_entry(c: Codec, pieces: &[String]) -> Result<Vec<u8>, String> {
+    let mut sc = IterScanner::<_, Vec<u8>>::new(pieces.iter());
+    match c {
+        B16 => sc.convert_entry(base16::SymbolConverter::new()),
+        B32Hex => sc.convert_entry(base32::SymbolConverter::new()),
+        B64 => sc.convert_entry(base64::SymbolConverter::new()),
+    }
+    .map_err(|e| e.to_string())
+}
+/// `IterScanner::convert_token` on one token.
+fn iter_token(c: Codec, token: &str) -> Result<Vec<u8>, String> {
+    let mut sc = IterScanner::<_, Vec<u8>>::new(std::iter::once(token));
+    match c {
+        B16 => sc.convert_token(base16::SymbolConverter::new()),
+        B32Hex => sc.convert_token(base32::SymbolConverter::new()),
+        B64 => sc.convert_token(base64::SymbolConverter::new()),
+    }
+    .map_err(|e| e.to_string())
+}
+
+//------------ Oracle helpers --------------------------------------------------
+
+fn show(t: &str) -> String {
+    let mut s: String = t.chars().take(120).flat_map(|c| c.escape_default()).collect();
+    if t.chars().count() > 120 {
+        s.push_str(&format!("…({} chars)", t.chars().count()));
+    }
+    s
+}
+fn hex(d: &[u8]) -> String {
+    let mut s = String::new();
+    for b in d.iter().take(48) {
+        s.push_str(&format!("{b:02x}"));
+    }
+    if d.len() > 48 {
+        s.push_str(&format!("…({} octets)", d.len()));
+    }
+    s
+}
+
+/// The demanded outcome: canonical => accepted with exactly these octets;
+/// invalid => rejected; trailing bits => either, octets as the lenient
+/// reference if accepted.
+fn check_outcome(c: Codec, entry: &str, text: &str, class: &Class, got: Result<&[u8], String>) -> CaseResult {
+    let n = c.name();
+    match (class, got) {
+        (Class::Canonical(w), Ok(g)) => vensure!(g == &w[..], format!("{n}:{entry}:wrong-octets"), "{n} {entry}({:?}) = {} but RFC 4648 gives {}", show(text), hex(g), hex(w)),
+        (Class::Canonical(w), Err(e)) => vfail!(format!("{n}:{entry}:rejected-valid"), "{n} {entry}({:?}) failed with {e:?}; it is the canonical encoding of {}", show(text), hex(w)),
+        (Class::TrailingBits(w), Ok(g)) => vensure!(g == &w[..], format!("{n}:{entry}:wrong-octets-trailing-bits"), "{n} {entry}({:?}) = {} but ignoring the pad bits gives {}", show(text), hex(g), hex(w)),
+        (Class::TrailingBits(_), Err(_)) => {}
+        (Class::Invalid(why), Ok(g)) => vfail!(format!("{n}:{entry}:accepted-invalid:{why}"), "{n} {entry}({:?}) was accepted as {} although the text is not well-formed ({why})", show(text), hex(g)),
+        (Class::Invalid(_), Err(_)) => {}
+    }
+    Ok(())
+}
+
+/// The incremental decoder's documented protocol, against what `decode()`
+/// returned for the same text.
+fn check_decoder<D: Dec>(c: Codec, text: &str, whole: &Result<Vec<u8>, DecodeError>) -> CaseResult {
+    let n = c.name();
+    let pieces = [text.to_string()];
+    let stop = drive_stop::<D>(&pieces);
+    vensure!(stop == *whole, format!("{n}:decoder:differs-from-decode"), "{n}: push-until-error + finalize gives {stop:?}, decode({:?}) gives {whole:?}", show(text));
+    let p = drive_all::<D>(&pieces);
+    match p.results.iter().position(|r| r.is_some()) {
+        None => vensure!(p.fin == *whole, format!("{n}:decoder:finalize-differs-from-decode"), "{n}: all pushes Ok, finalize {:?}, decode({:?}) {whole:?}", p.fin, show(text)),
+        Some(i) => {
+            let e = p.results[i].unwrap();
+            vensure!(*whole == Err(e), format!("{n}:decoder:first-error-differs-from-decode"), "{n}: push #{i} failed with {e:?}, decode({:?}) gives {whole:?}", show(text));
+            if let Some(j) = p.results[i + 1..].iter().position(|r| r.is_none()) {
+                vfail!(format!("{n}:decoder:push-ok-after-error"), "{n} Decoder: push #{i} of {:?} returned Err({e:?}) but the later push #{} returned Ok; documented: \"It is okay to push more data after the first error. The method will just keep returning errors.\"", show(text), i + 1 + j);
+            }
+            vensure!(p.fin.is_err(), format!("{n}:decoder:finalize-ok-after-push-error"), "{n} Decoder: push #{i} of {:?} returned Err({e:?}) but finalize returned {:?}", show(text), p.fin);
+        }
+    }
+    Ok(())
+}
+
+/// Decoding into a bounded buffer: same result when it fits, ShortBuf when
+/// it does not, and the same protocol.
+fn check_small<D: Dec>(c: Codec, text: &str, whole: &Result<Vec<u8>, DecodeError>) -> CaseResult {
+    let n = c.name();
+    let pieces = [text.to_string()];
+    let got = drive_stop::<D>(&pieces);
+    match (whole, &got) {
+        (Ok(w), Ok(g)) => vensure!(w == g && w.len() <= SMALL, format!("{n}:decoder-bounded:wrong-octets"), "{n}: bounded target gives {}, Vec target {}", hex(g), hex(w)),
+        (Ok(w), Err(e)) => vensure!(w.len() > SMALL && *e == DecodeError::ShortBuf, format!("{n}:decoder-bounded:wrong-error"), "{n}: {:?} decodes to {} octets, target holds {SMALL}, got Err({e:?})", show(text), w.len()),
+        (Err(_), Err(_)) => {}
+        (Err(e), Ok(g)) => vfail!(format!("{n}:decoder-bounded:accepted"), "{n}: Vec target fails with {e:?}, bounded target returns {}", hex(g)),
+    }
+    let p = drive_all::<D>(&pieces);
+    if let Some(i) = p.results.iter().position(|r| r.is_some()) {
+        if let Some(j) = p.results[i + 1..].iter().position(|r| r.is_none()) {
+            vfail!(format!("{n}:decoder-bounded:push-ok-after-error"), "{n} Decoder<Array<{SMALL}>>: push #{i} of {:?} returned Err({:?}) but push #{} returned Ok", show(text), p.results[i], i + 1 + j);
+        }
+        vensure!(p.fin.is_err(), format!("{n}:decoder-bounded:finalize-ok-after-push-error"), "{n} Decoder<Array<{SMALL}>>: push #{i} of {:?} failed, finalize returned {:?}", show(text), p.fin);
+    } else {
+        vensure!(p.fin == got, format!("{n}:decoder-bounded:finalize-differs"), "{n}: {:?} vs {got:?}", p.fin);
+    }
+    Ok(())
+}
+
+fn classes_for_text(c: Codec, text: &str, class: &Class, ctx: &mut Ctx) {
+    let n = c.name();
+    let block = c.spec().block();
+    ctx.class(format!("{n}:{}", class.label()));
+    if let Class::Invalid(why) = class {
+        ctx.class(format!("{n}:invalid:{why}"));
+    }
+    let len = text.chars().count();
+    ctx.class(format!("{n}:len%{block}={}", len % block));
+    if len == 0 {
+        ctx.class("empty-text");
+    }
+    let npad = text.chars().filter(|&ch| ch == '=').count();
+    if npad > 0 {
+        ctx.class(format!("{n}:pad-count={}", npad.min(block + 1)));
+        let first = text.chars().position(|ch| ch == '=').unwrap();
+        if text.chars().skip(first).any(|ch| ch != '=') {
+            ctx.class("pad-in-the-middle");
+        }
+        if first == 0 {
+            ctx.class("pad-at-start");
+        }
+    }
+    let mut seen = [false; 5];
+    for ch in text.chars() {
+        if !ch.is_ascii() {
+            seen[0] = true;
+        } else if ch == '\0' {
+            seen[1] = true;
+        } else if ch.is_ascii_whitespace() {
+            seen[2] = true;
+        } else if ch == '-' || ch == '_' {
+            seen[3] = true;
+        } else if ch.is_ascii_lowercase() {
+            seen[4] = true;
+        }
+    }
+    for (i, l) in ["char:non-ascii", "char:nul", "char:whitespace", "char:url-safe", "char:lower-case"].iter().enumerate() {
+        if seen[i] {
+            ctx.class(*l);
+        }
+    }
+}
+
+/// Everything that can be asked about one text, through every direct entry
+/// point of the codec.
+fn check_text(c: Codec, text: &str, ctx: &mut Ctx) -> Result<Class, Violation> {
+    let spec = c.spec();
+    let class = rf::classify(spec, text);
+    classes_for_text(c, text, &class, ctx);
+    let n = c.name();
+
+    // decode()
+    let whole = lib_decode(c, text);
+    check_outcome(c, "decode", text, &class, whole.as_ref().map(|v| &v[..]).map_err(|e| format!("{e:?}")))?;
+    match &whole {
+        Ok(_) => ctx.class(format!("{n}:lib-accepts")),
+        Err(e) => ctx.class(format!("{n}:lib-error:{}", match e {
+            DecodeError::IllegalChar(_) => "IllegalChar",
+            DecodeError::TrailingInput => "TrailingInput",
+            DecodeError::ShortInput => "ShortInput",
+            DecodeError::ShortBuf => "ShortBuf",
+        })),
+    }
+    if matches!(class, Class::TrailingBits(_)) {
+        ctx.class(format!("{n}:trailing-bits-{}", if whole.is_ok() { "accepted" } else { "rejected" }));
+    }
+    // an unbounded target never runs out of space
+    vensure!(whole != Err(DecodeError::ShortBuf), format!("{n}:decode:shortbuf-on-vec"), "{n} decode({:?}) into a Vec reports ShortBuf", show(text));
+    // other octets types
+    let as_bytes = lib_decode_bytes(c, text);
+    vensure!(as_bytes == whole, format!("{n}:decode:bytes-differs-from-vec"), "{n} decode::<Bytes>({:?}) = {as_bytes:?}, decode::<Vec<u8>> = {whole:?}", show(text));
+
+    // incremental decoder
+    match c {
+        B16 => {
+            check_decoder::<base16::Decoder<Vec<u8>>>(c, text, &whole)?;
+            check_small::<base16::Decoder<Small>>(c, text, &whole)?;
+        }
+        B32Hex => {
+            check_decoder::<base32::Decoder<Vec<u8>>>(c, text, &whole)?;
+            check_small::<base32::Decoder<Small>>(c, text, &whole)?;
+        }
+        B64 => {
+            check_decoder::<base64::Decoder<Vec<u8>>>(c, text, &whole)?;
+            check_small::<base64::Decoder<Small>>(c, text, &whole)?;
+        }
+    }
+
+    // SymbolConverter, one token
+    let pieces = [text.to_string()];
+    let conv = lib_convert(c, &pieces, false);
+    check_outcome(c, "converter", text, &class, conv.as_ref().map(|v| &v[..]).map_err(|e| e.clone()))?;
+    let conv_eot = lib_convert(c, &pieces, true);
+    vensure!(conv_eot.is_ok() == conv.is_ok() && (conv.is_err() || conv_eot == conv), format!("{n}:converter:end-of-token-changes-result"), "{n} converter {:?}: without EndOfToken {conv:?}, with {conv_eot:?}", show(text));
+
+    // serde helper (human readable form)
+    let de = lib_serde_de(c, text);
+    check_outcome(c, "serde-deserialize", text, &class, de.as_ref().map(|v| &v[..]).map_err(|e| e.clone()))?;
+    vensure!(de.is_ok() == whole.is_ok(), format!("{n}:serde-deserialize:differs-from-decode"), "{n} serde {de:?} vs decode {whole:?}");
+
+    // typed users
+    if c == B32Hex {
+        let got = OwnerHash::<Vec<u8>>::from_str(text);
+        // an owner hash holds at most 255 octets (documented type invariant)
+        let cls = match &class {
+            Class::Canonical(v) | Class::TrailingBits(v) if v.len() > 255 => {
+                ctx.class("ownerhash:longer-than-255");
+                Class::Invalid("hash-longer-than-255-octets")
+            }
+            other => other.clone(),
+        };
+        check_outcome(c, "ownerhash-from_str", text, &cls, got.as_ref().map(|h| h.as_slice()).map_err(|e| format!("{e:?}")))?;
+        if let Ok(h) = &got {
+            let shown = h.to_string();
+            vensure!(shown == rf::encode(spec, h.as_slice()), "b32hex:ownerhash-display:differs-from-rfc4648", "OwnerHash({}) displays as {shown:?}", hex(h.as_slice()));
+        }
+    }
+    if c == B16 && text != "-" {
+        let got = Nsec3Salt::<Vec<u8>>::from_str(text);
+        // a salt holds at most 255 octets (documented type invariant)
+        let cls = match &class {
+            Class::Canonical(v) | Class::TrailingBits(v) if v.len() > 255 => {
+                ctx.class("nsec3salt:longer-than-255");
+                Class::Invalid("salt-longer-than-255-octets")
+            }
+            other => other.clone(),
+        };
+        check_outcome(c, "nsec3salt-from_str", text, &cls, got.as_ref().map(|h| h.as_slice()).map_err(|e| format!("{e:?}")))?;
+        if let Ok(s) = &got {
+            let shown = s.to_string();
+            let want = if s.as_slice().is_empty() { "-".to_string() } else { rf::encode(spec, s.as_slice()) };
+            vensure!(shown == want, "b16:nsec3salt-display:differs", "Nsec3Salt({}) displays as {shown:?}, want {want:?}", hex(s.as_slice()));
+        }
+    }
+
+    // what was accepted re-encodes to text that decodes to the same octets,
+    // and canonical text re-encodes to itself (modulo letter case)
+    if let Ok(v) = &whole {
+        let re = lib_encode(c, v);
+        vensure!(lib_decode(c, &re).as_ref() == Ok(v), format!("{n}:decode-encode-decode"), "{n}: {:?} -> {} -> {re:?} does not decode back", show(text), hex(v));
+        if matches!(class, Class::Canonical(_)) {
+            let norm = if spec.case_insensitive { text.to_ascii_uppercase() } else { text.to_string() };
+            vensure!(re == norm, format!("{n}:canonical-text-does-not-reencode-to-itself"), "{n}: canonical {:?} re-encodes to {re:?}", show(text));
+        }
+    }
+    Ok(class)
+}
+
+/// Everything that can be asked about one octet string.
+fn check_octets(c: Codec, d: &[u8], ctx: &mut Ctx) -> CaseResult {
+    let spec = c.spec();
+    let n = c.name();
+    let e = lib_encode(c, d);
+    let want = rf::encode(spec, d);
+    vensure!(e == want, format!("{n}:encode:differs-from-rfc4648"), "{n} encode_string({}) = {:?}, RFC 4648 gives {:?}", hex(d), show(&e), show(&want));
+    let disp = lib_display(c, d);
+    vensure!(disp == e, format!("{n}:display:differs-from-encode_string"), "{n} display({}) = {:?}, encode_string = {:?}", hex(d), show(&disp), show(&e));
+    let ed = lib_encode_display(c, d);
+    vensure!(ed == e, format!("{n}:encode_display:differs-from-encode_string"), "{n} encode_display({}) = {:?}, encode_string = {:?}", hex(d), show(&ed), show(&e));
+    let dv = d.to_vec();
+    let ser = lib_serde_ser(c, &dv);
+    vensure!(ser.as_deref() == Ok(&e[..]), format!("{n}:serde-serialize:differs-from-encode_string"), "{n} serde serialize({}) = {ser:?}", hex(d));
+    // inverse, through every decoding entry point
+    let back = lib_decode(c, &e);
+    vensure!(back.as_deref() == Ok(d), format!("{n}:decode:not-inverse-of-encode"), "{n}: {} encodes to {:?} which decodes to {back:?}", hex(d), show(&e));
+    vensure!(lib_decode_bytes(c, &e).as_deref() == Ok(d), format!("{n}:decode:bytes-not-inverse"), "{n}: Bytes target");
+    let pieces = [e.clone()];
+    let got = match c {
+        B16 => drive_all::<base16::Decoder<Vec<u8>>>(&pieces),
+        B32Hex => drive_all::<base32::Decoder<Vec<u8>>>(&pieces),
+        B64 => drive_all::<base64::Decoder<Vec<u8>>>(&pieces),
+    };
+    vensure!(got.results.iter().all(|r| r.is_none()) && got.fin.as_deref() == Ok(d), format!("{n}:decoder:not-inverse-of-encode"), "{n}: Decoder on {:?}: {:?}", show(&e), got.fin);
+    let conv = lib_convert(c, &pieces, false);
+    vensure!(conv.as_deref() == Ok(d), format!("{n}:converter:not-inverse-of-encode"), "{n}: SymbolConverter on {:?}: {conv:?}", show(&e));
+    let tok = iter_token(c, &e);
+    vensure!(tok.as_deref() == Ok(d), format!("{n}:iterscanner-token:not-inverse-of-encode"), "{n}: IterScanner::convert_token on {:?}: {tok:?}", show(&e));
+    let de = lib_serde_de(c, &e);
+    vensure!(de.as_deref() == Ok(d), format!("{n}:serde-deserialize:not-inverse"), "{n}: serde on {:?}: {de:?}", show(&e));
+    if spec.case_insensitive {
+        let lower = e.to_ascii_lowercase();
+        let got = lib_decode(c, &lower);
+        vensure!(got.as_deref() == Ok(d), format!("{n}:decode:lower-case-differs"), "{n}: {:?} decodes to {got:?}", show(&lower));
+    }
+    // typed users
+    if c == B32Hex && d.len() <= 255 {
+        let h = OwnerHash::from_octets(d.to_vec()).expect("<= 255 octets");
+        let shown = h.to_string();
+        vensure!(shown == e, "b32hex:ownerhash-display:differs-from-encode_string", "OwnerHash({}) displays as {shown:?}", hex(d));
+        let back = OwnerHash::<Vec<u8>>::from_str(&shown);
+        vensure!(back.as_ref().map(|h| h.as_slice()).ok() == Some(d), "b32hex:ownerhash-from_str:not-inverse-of-display", "OwnerHash({}) -> {shown:?} -> {back:?}", hex(d));
+    }
+    if c == B16 && d.len() <= 255 {
+        let s = Nsec3Salt::from_octets(d.to_vec()).expect("<= 255 octets");
+        let shown = s.to_string();
+        let want = if d.is_empty() { "-".to_string() } else { e.clone() };
+        vensure!(shown == want, "b16:nsec3salt-display:differs", "Nsec3Salt({}) displays as {shown:?}", hex(d));
+        let back = Nsec3Salt::<Vec<u8>>::from_str(&shown);
+        vensure!(back.as_ref().map(|h| h.as_slice()).ok() == Some(d), "b16:nsec3salt-from_str:not-inverse-of-display", "Nsec3Salt({}) -> {shown:?} -> {back:?}", hex(d));
+    }
+    if d.len() % c.block_octets() != 0 {
+        ctx.class(format!("{n}:octets-partial-block"));
+    } else {
+        ctx.class(format!("{n}:octets-full-blocks"));
+    }
+    Ok(())
+}
+
+/// All texts that differ from the encoding of `d` only in the unused low
+/// bits of the last symbol.
+fn trailing_bit_variants(c: Codec, d: &[u8]) -> Vec<String> {
+    let spec = c.spec();
+    let e: Vec<char> = rf::encode(spec, d).chars().collect();
+    let nd = e.iter().position(|&ch| ch == '=').unwrap_or(e.len());
+    let rem = nd % spec.block();
+    let mut out = vec![];
+    if nd == 0 || rem == 0 {
+        return out;
+    }
+    let tb = spec.residue_trailing_bits(rem).expect("encoder output has a possible residue");
+    let v = spec.value(e[nd - 1]).unwrap();
+    for r in 1..(1u8 << tb) {
+        let mut t = e.clone();
+        t[nd - 1] = spec.alphabet[(v | r) as usize] as char;
+        out.push(t.into_iter().collect());
+    }
+    out
+}
+
+//------------ Sub-check: octets_sweep ------------------------------------------
+
+const SWEEP_OCTETS: u64 = 1 + 256 + 65536;
+
+fn sweep_octets(i: u64) -> Vec<u8> {
+    match i {
+        0 => vec![],
+        1..=256 => vec![(i - 1) as u8],
+        _ => {
+            let j = i - 257;
+            vec![(j >> 8) as u8, j as u8]
+        }
+    }
+}
+
+fn run_octets_sweep(data: &[u8], ctx: &mut Ctx) -> CaseResult {
+    let mut b = [0u8; 8];
+    b[..data.len().min(8)].copy_from_slice(&data[..data.len().min(8)]);
+    let i = u64::from_le_bytes(b) % SWEEP_OCTETS;
+    let d = sweep_octets(i);
+    ctx.nontrivial(&d);
+    ctx.sample(|| format!("octets {} through all codecs + every trailing-bit variant", hex(&d)));
+    for c in CODECS {
+        check_octets(c, &d, ctx)?;
+        for t in trailing_bit_variants(c, &d) {
+            let class = check_text(c, &t, ctx)?;
+            vensure!(class == Class::TrailingBits(d.clone()), "harness:reference-inconsistent", "{t:?} should be a trailing-bits variant of {}", hex(&d));
+        }
+    }
+    Ok(())
+}
+
+//------------ Sub-check: text_sweep --------------------------------------------
+
+struct Seg {
+    codec: Codec,
+    chars: &'static [char],
+    maxlen: u32,
+}
+/// All strings up to `maxlen` over small alphabets that hold, per codec: a
+/// zero symbol, an all-ones symbol, symbols whose low bits are zero for
+/// some residues only, the pad, neighbours of the alphabet and non-ASCII.
+const SEGS: [Seg; 7] = [
+    Seg { codec: B64, chars: &['A', 'Q', 'E', '/', 'z', '=', '-', ' ', 'é', '\0'], maxlen: 5 },
+    Seg { codec: B64, chars: &['A', 'Q', '/', '=', 'h'], maxlen: 8 },
+    Seg { codec: B32Hex, chars: &['0', 'V', 'g', '=', 'W'], maxlen: 8 },
+    Seg { codec: B32Hex, chars: &['0', 'G', 'v', '8', '=', 'w', 'O', ' ', 'Z', 'é'], maxlen: 5 },
+    Seg { codec: B16, chars: &['0', '9', 'a', 'F', 'f', 'g', 'G', '=', ' ', 'é', ':', '/', '@', '`'], maxlen: 4 },
+    // thorough tier only (appended, so quick indices keep their meaning)
+    Seg { codec: B64, chars: &['A', 'Q', '/', '=', 'h'], maxlen: 10 },
+    Seg { codec: B32Hex, chars: &['0', 'V', 'g', '=', 'W'], maxlen: 10 },
+];
+const QUICK_SEGS: usize = 5;
+fn seg_size(s: &Seg) -> u64 {
+    let k = s.chars.len() as u64;
+    (0..=s.maxlen).map(|l| k.pow(l)).sum()
+}
+fn text_sweep_total(thorough: bool) -> u64 {
+    SEGS.iter().take(if thorough { SEGS.len() } else { QUICK_SEGS }).map(seg_size).sum()
+}
+fn sweep_text(mut i: u64) -> (Codec, String) {
+    for s in &SEGS {
+        let size = seg_size(s);
+        if i >= size {
+            i -= size;
+            continue;
+        }
+        let k = s.chars.len() as u64;
+        let mut len = 0u32;
+        while i >= k.pow(len) {
+            i -= k.pow(len);
+            len += 1;
+        }
+        let mut t = String::new();
+        for _ in 0..len {
+            t.push(s.chars[(i % k) as usize]);
+            i /= k;
+        }
+        return (s.codec, t);
+    }
+    (B64, String::new())
+}
+
+fn nontrivial_text(c: Codec, text: &str, class: &Class, edit1: bool) -> bool {
+    let len = text.chars().count();
+    len % c.spec().block() != 0 || text.contains('=') || (edit1 && matches!(class, Class::Invalid(_)))
+}
+
+fn run_text_sweep(data: &[u8], ctx: &mut Ctx) -> CaseResult {
+    let mut b = [0u8; 8];
+    b[..data.len().min(8)].copy_from_slice(&data[..data.len().min(8)]);
+    let i = u64::from_le_bytes(b) % text_sweep_total(true);
+    let (c, t) = sweep_text(i);
+    ctx.sample(|| format!("{} {:?}", c.name(), show(&t)));
+    let class = check_text(c, &t, ctx)?;
+    if nontrivial_text(c, &t, &class, false) {
+        ctx.nontrivial(&(c, &t));
+    }
+    Ok(())
+}
+
+//------------ Generators -------------------------------------------------------
+
+fn gen_octets(u: &mut Unstructured, big: bool) -> Vec<u8> {
+    let len = match pick(u, 8) {
+        0..=3 => pick(u, 12),
+        4 | 5 => pick(u, 70),
+        6 => pick(u, 400),
+        _ => {
+            if big && chance(u, 96) {
+                [4096, 4095, 4094, 4093, 4092, 1024, 2047, 3000][pick(u, 8)] - pick(u, 6)
+            } else {
+                pick(u, 40)
+            }
+        }
+    };
+    let mut v = Vec::with_capacity(len);
+    match pick(u, 5) {
+        0 | 1 => {
+            for _ in 0..len {
+                v.push(byte(u));
+            }
+        }
+        2 => {
+            let b = byte(u);
+            v.resize(len, b);
+        }
+        3 => {
+            let mut x = u32_(u) | 1;
+            for _ in 0..len {
+                x = x.wrapping_mul(1664525).wrapping_add(1013904223);
+                v.push((x >> 24) as u8);
+            }
+        }
+        _ => {
+            let b = [0x00u8, 0xFF, 0x80, 0x7F, 0x01, 0xFE][pick(u, 6)];
+            v.resize(len, b);
+            if len > 0 && flag(u) {
+                let p = pick(u, len);
+                v[p] = byte(u);
+            }
+        }
+    }
+    v
+}
+
+/// Characters planted by the mutators: pad, the URL-safe pair, the Base64
+/// specials, white space, NUL/control, non-ASCII (incl. letters whose case
+/// mapping lands in ASCII and non-ASCII digits), the neighbours of the ASCII
+/// digit/letter ranges, letters just outside each alphabet, and the
+/// characters with a meaning in zone files.
+const ODD: &[char] = &[
+    '=', '-', '_', '+', '/', ' ', '\t', '\n', '\r', '\0', '\u{b}', '\u{7f}', '\u{80}', 'é', 'ÿ', '\u{17f}', '\u{212a}', '\u{ff10}', '\u{663}', '\u{1f600}', '\u{a0}', '.', ',', ':', '@', '[', '`', '{', 'G', 'g', 'W', 'w', 'Z', 'z', 'V', 'v', 'F', 'f', '0',
+    '9', 'A', 'a', '*', '!', '~', '\\', '"', '(', ')', ';',
+];
+/// Number of trailing entries of ODD that the zone-file tokenizer gives a
+/// meaning to (kept out of token bodies; white space is filtered separately).
+fn token_safe(ch: char) -> bool {
+    !matches!(ch, ' ' | '\t' | '\r' | '\n' | '(' | ')' | ';' | '"' | '\\')
+}
+fn odd_char(u: &mut Unstructured, safe: bool) -> char {
+    for _ in 0..8 {
+        let ch = ODD[pick(u, ODD.len())];
+        if !safe || token_safe(ch) {
+            return ch;
+        }
+    }
+    '='
+}
+fn pos(u: &mut Unstructured, n: usize) -> usize {
+    match pick(u, 6) {
+        0 => 0,
+        1 => n,
+        2 => n.saturating_sub(1),
+        3 => n.saturating_sub(2),
+        _ => pick(u, n + 1),
+    }
+}
+
+/// One mutation; returns (name, is a single-character edit).
+fn mutate(u: &mut Unstructured, spec: &Spec, t: &mut Vec<char>, safe: bool) -> (&'static str, bool) {
+    let n = t.len();
+    let block = spec.block();
+    match pick(u, 14) {
+        0 => {
+            let before = t.len();
+            while t.last() == Some(&'=') {
+                t.pop();
+            }
+            let k = pick(u, block + 2);
+            for _ in 0..k {
+                t.push('=');
+            }
+            ("set-pad-count", (before as i64 - t.len() as i64).abs() == 1)
+        }
+        1 => {
+            let p = pos(u, n);
+            t.insert(p, '=');
+            ("insert-pad", true)
+        }
+        2 => {
+            let cut = if flag(u) { 1 + pick(u, block) } else { pick(u, n + 1) }.min(n);
+            t.truncate(n - cut);
+            ("truncate", cut == 1)
+        }
+        3 => {
+            t.push(spec.alphabet[pick(u, spec.alphabet.len())] as char);
+            ("append-symbol", true)
+        }
+        4 if n > 0 => {
+            let p = pos(u, n - 1);
+            t[p] = odd_char(u, safe);
+            ("replace-with-odd-char", true)
+        }
+        5 => {
+            let p = pos(u, n);
+            t.insert(p, odd_char(u, safe));
+            ("insert-odd-char", true)
+        }
+        6 if n > 0 => {
+            let p = pos(u, n - 1);
+            t.remove(p);
+            ("delete-char", true)
+        }
+        7 if n > 0 => {
+            let p = pos(u, n - 1);
+            t[p] = if t[p].is_ascii_lowercase() { t[p].to_ascii_uppercase() } else { t[p].to_ascii_lowercase() };
+            ("flip-case", true)
+        }
+        8 => {
+            let lower = flag(u);
+            for ch in t.iter_mut() {
+                *ch = if lower { ch.to_ascii_lowercase() } else { ch.to_ascii_uppercase() };
+            }
+            (if lower { "lower-all" } else { "upper-all" }, false)
+        }
+        9 => {
+            let nd = t.iter().position(|&ch| ch == '=').unwrap_or(n);
+            if nd > 0 && nd % block != 0 {
+                if let (Some(tb), Some(v)) = (spec.residue_trailing_bits(nd % block), spec.value(t[nd - 1])) {
+                    if tb > 0 {
+                        let r = 1 + pick(u, (1usize << tb) - 1) as u8;
+                        t[nd - 1] = spec.alphabet[((v & !((1u8 << tb) - 1)) | r) as usize] as char;
+                    }
+                }
+            }
+            ("set-trailing-bits", true)
+        }
+        10 => {
+            let copy = t.clone();
+            t.extend(copy);
+            ("duplicate", false)
+        }
+        11 if n > 1 => {
+            let p = pos(u, n - 2);
+            t.swap(p, p + 1);
+            ("swap-adjacent", false)
+        }
+        12 if n > 0 => {
+            let p = pos(u, n - 1);
+            t[p] = spec.alphabet[pick(u, spec.alphabet.len())] as char;
+            ("replace-with-symbol", true)
+        }
+        13 if n > 1 => {
+            let p = 1 + pick(u, n - 1);
+            t.insert(p, '=');
+            ("pad-in-the-middle", true)
+        }
+        _ => {
+            t.push('=');
+            ("append-pad", true)
+        }
+    }
+}
+
+struct TextCase {
+    codec: Codec,
+    text: String,
+    ops: Vec<&'static str>,
+    /// Exactly one single-character edit away from a valid encoding.
+    edit1: bool,
+}
+
+fn gen_text(u: &mut Unstructured, forced: Option<Codec>, safe: bool, big: bool) -> TextCase {
+    let codec = forced.unwrap_or_else(|| CODECS[pick(u, 3)]);
+    let spec = codec.spec();
+    match pick(u, 10) {
+        0 => {
+            // symbol soup: alphabet, pad and odd characters, every length
+            let n = pick(u, 26);
+            let mut t = String::new();
+            for _ in 0..n {
+                t.push(match pick(u, 8) {
+                    0 => '=',
+                    1 => odd_char(u, safe),
+                    _ => spec.alphabet[pick(u, spec.alphabet.len())] as char,
+                });
+            }
+            TextCase { codec, text: t, ops: vec!["soup"], edit1: false }
+        }
+        1 => {
+            let n = pick(u, 40);
+            let raw: Vec<u8> = (0..n).map(|_| byte(u)).collect();
+            let t: String = String::from_utf8_lossy(&raw).chars().filter(|&ch| !safe || token_safe(ch)).collect();
+            TextCase { codec, text: t, ops: vec!["arbitrary"], edit1: false }
+        }
+        _ => {
+            let d = gen_octets(u, big);
+            let mut t: Vec<char> = rf::encode(spec, &d).chars().collect();
+            let mut ops = vec![];
+            if spec.case_insensitive {
+                match pick(u, 4) {
+                    0 => {
+                        t.iter_mut().for_each(|ch| *ch = ch.to_ascii_lowercase());
+                        ops.push("valid-lower-case");
+                    }
+                    1 => {
+                        for ch in t.iter_mut() {
+                            if flag(u) {
+                                *ch = ch.to_ascii_lowercase();
+                            }
+                        }
+                        ops.push("valid-mixed-case");
+                    }
+                    _ => {}
+                }
+            }
+            let nmut = [0usize, 1, 1, 1, 1, 2, 2, 3][pick(u, 8)];
+            let mut edit1 = nmut == 1;
+            for _ in 0..nmut {
+                let (name, single) = mutate(u, spec, &mut t, safe);
+                ops.push(name);
+                edit1 &= single;
+            }
+            if nmut == 0 {
+                ops.push("valid");
+            }
+            TextCase { codec, text: t.into_iter().collect(), ops, edit1 }
+        }
+    }
+}
+
+//------------ Sub-check: roundtrip ---------------------------------------------
+
+fn run_roundtrip(data: &[u8], ctx: &mut Ctx) -> CaseResult {
+    let mut u = Unstructured::new(data);
+    let c = CODECS[pick(&mut u, 3)];
+    let d = gen_octets(&mut u, true);
+    ctx.class(format!("{}:octets-len-{}", c.name(), match d.len() { 0 => "0", 1..=2 => "1-2", 3..=64 => "3-64", 65..=1023 => "65-1023", _ => "1024-4096" }));
+    ctx.sample(|| format!("{} octets {}", c.name(), hex(&d)));
+    if d.len() % c.block_octets() != 0 {
+        ctx.nontrivial(&(c, &d));
+    }
+    check_octets(c, &d, ctx)
+}
+
+//------------ Sub-check: mutated_text ------------------------------------------
+
+fn run_mutated(data: &[u8], ctx: &mut Ctx) -> CaseResult {
+    let mut u = Unstructured::new(data);
+    let tc = gen_text(&mut u, None, false, true);
+    for op in &tc.ops {
+        ctx.class(format!("op:{op}"));
+    }
+    ctx.sample(|| format!("{} {:?} via {:?}", tc.codec.name(), show(&tc.text), tc.ops));
+    let class = check_text(tc.codec, &tc.text, ctx)?;
+    if tc.edit1 && matches!(class, Class::Invalid(_)) {
+        ctx.class("rejected-one-edit-from-valid");
+    }
+    if nontrivial_text(tc.codec, &tc.text, &class, tc.edit1) {
+        ctx.nontrivial(&(tc.codec, &tc.text));
+    }
+    Ok(())
+}
+
+//------------ Sub-check: text_raw (also the libFuzzer entry) --------------------
+
+fn run_text_raw(data: &[u8], ctx: &mut Ctx) -> CaseResult {
+    // byte 0: low bits select the codec, the top bit selects how the rest
+    // becomes text: as (lossy) UTF-8, or byte by byte through a table that
+    // is mostly the codec's alphabet, then '=', then odd characters (so
+    // that undirected generation reaches well-formed shapes too)
+    let (c, mapped, rest) = match data.split_first() {
+        Some((b, rest)) => (CODECS[((*b & 0x7f) % 3) as usize], *b & 0x80 != 0, rest),
+        None => (B64, false, data),
+    };
+    let text: String = if mapped {
+        ctx.class("text_raw:mapped");
+        let a = c.spec().alphabet;
+        rest.iter()
+            .map(|&b| match b {
+                0..=159 => a[b as usize % a.len()] as char,
+                160..=219 => '=',
+                _ => ODD[b as usize % ODD.len()],
+            })
+            .collect()
+    } else {
+        ctx.class("text_raw:utf8");
+        String::from_utf8_lossy(rest).into_owned()
+    };
+    ctx.sample(|| format!("{} {:?}", c.name(), show(&text)));
+    let class = check_text(c, &text, ctx)?;
+    if nontrivial_text(c, &text, &class, false) {
+        ctx.nontrivial(&(c, &text));
+    }
+    // the same text as one token and char by char through the scanner-facing
+    // converter (a backslash would start an escape sequence there)
+    if !text.contains('\\') {
+        let tok = iter_token(c, &text);
+        check_outcome(c, "iterscanner-token", &text, &class, tok.as_ref().map(|v| &v[..]).map_err(|e| e.clone()))?;
+        let singles: Vec<String> = text.chars().map(|ch| ch.to_string()).collect();
+        let ent = iter_entry(c, &singles);
+        check_outcome(c, "iterscanner-entry", &text, &class, ent.as_ref().map(|v| &v[..]).map_err(|e| e.clone()))?;
+    }
+    Ok(())
+}
+
+//------------ Sub-check: chunking ----------------------------------------------
+
+fn split_at_cuts(chars: &[char], cuts: &[usize]) -> Vec<String> {
+    let mut out = vec![];
+    let mut last = 0;
+    for &c in cuts {
+        out.push(chars[last..c].iter().collect());
+        last = c;
+    }
+    out.push(chars[last..].iter().collect());
+    out
+}
+
+type R = Result<Vec<u8>, String>;
+
+fn same(a: &R, b: &R) -> bool {
+    match (a, b) {
+        (Ok(x), Ok(y)) => x == y,
+        (Err(_), Err(_)) => true,
+        _ => false,
+    }
+}
+
+fn run_chunking(data: &[u8], ctx: &mut Ctx) -> CaseResult {
+    let mut u = Unstructured::new(data);
+    let tc = gen_text(&mut u, None, false, false);
+    let c = tc.codec;
+    let n = c.name();
+    let chars: Vec<char> = tc.text.chars().collect();
+    let len = chars.len();
+    let class = rf::classify(c.spec(), &tc.text);
+    classes_for_text(c, &tc.text, &class, ctx);
+    let whole = [tc.text.clone()];
+    let escapes = tc.text.contains('\\');
+
+    // whole-text results per entry point (and against the reference)
+    let dec_whole: R = lib_decode(c, &tc.text).map_err(|e| format!("{e:?}"));
+    check_outcome(c, "decode", &tc.text, &class, dec_whole.as_ref().map(|v| &v[..]).map_err(|e| e.clone()))?;
+    let conv_whole = lib_convert(c, &whole, true);
+    check_outcome(c, "converter", &tc.text, &class, conv_whole.as_ref().map(|v| &v[..]).map_err(|e| e.clone()))?;
+    let iter_whole = if escapes { None } else { Some(iter_entry(c, &whole)) };
+    if let Some(r) = &iter_whole {
+        check_outcome(c, "iterscanner-entry", &tc.text, &class, r.as_ref().map(|v| &v[..]).map_err(|e| e.clone()))?;
+    }
+
+    // the splits: all of them for short texts, else every single cut, all
+    // one-character pieces and a handful of generated multi-cuts
+    let mut splits: Vec<Vec<usize>> = vec![];
+    if len >= 1 && len <= 10 {
+        for mask in 0u32..(1 << (len - 1)) {
+            splits.push((1..len).filter(|i| mask >> (i - 1) & 1 == 1).collect());
+        }
+        ctx.class("chunking:all-splits");
+    } else if len > 10 {
+        if len <= 160 {
+            for i in 1..len {
+                splits.push(vec![i]);
+            }
+            ctx.class("chunking:every-single-cut");
+        }
+        splits.push((1..len).collect());
+        for _ in 0..6 {
+            let k = 1 + pick(&mut u, 8);
+            let mut cuts: Vec<usize> = (0..k)
+                .map(|_| match pick(&mut u, 4) {
+                    0 => len - 1 - pick(&mut u, 9.min(len - 1)),
+                    _ => 1 + pick(&mut u, len - 1),
+                })
+                .collect();
+            cuts.sort();
+            cuts.dedup();
+            splits.push(cuts);
+        }
+        ctx.class("chunking:sampled-splits");
+    }
+    // empty pieces (empty tokens) at the start, the end and in the middle
+    let mut with_empty: Vec<Vec<String>> = vec![];
+    {
+        let mut p = vec![String::new()];
+        p.extend(whole.iter().cloned());
+        p.push(String::new());
+        with_empty.push(p);
+        if len >= 2 {
+            let mid = 1 + pick(&mut u, len - 1);
+            with_empty.push(vec![chars[..mid].iter().collect(), String::new(), String::new(), chars[mid..].iter().collect()]);
+        }
+    }
+    let mut count = 0u32;
+    let all = splits.iter().map(|cuts| split_at_cuts(&chars, cuts)).chain(with_empty);
+    for pieces in all {
+        count += 1;
+        let d: R = match c {
+            B16 => drive_stop::<base16::Decoder<Vec<u8>>>(&pieces),
+            B32Hex => drive_stop::<base32::Decoder<Vec<u8>>>(&pieces),
+            B64 => drive_stop::<base64::Decoder<Vec<u8>>>(&pieces),
+        }
+        .map_err(|e| format!("{e:?}"));
+        vensure!(d == dec_whole, format!("{n}:chunking:decoder-differs"), "{n} Decoder fed {pieces:?}: {d:?}; whole text: {dec_whole:?}");
+        for eot in [true, false] {
+            let r = lib_convert(c, &pieces, eot);
+            vensure!(same(&r, &conv_whole), format!("{n}:chunking:converter-differs"), "{n} SymbolConverter fed {pieces:?} (EndOfToken between pieces: {eot}): {r:?}; whole text: {conv_whole:?}");
+        }
+        if let Some(w) = &iter_whole {
+            let r = iter_entry(c, &pieces);
+            vensure!(same(&r, w), format!("{n}:chunking:iterscanner-entry-differs"), "{n} IterScanner::convert_entry over tokens {pieces:?}: {r:?}; one token: {w:?}");
+        }
+    }
+    ctx.class(format!("chunking:pieces-{}", match splits.iter().map(|s| s.len() + 1).max().unwrap_or(1) { 1 => "1", 2..=4 => "2-4", _ => "5+" }));
+    ctx.sample(|| format!("{} {:?} in {count} splits", n, show(&tc.text)));
+    if len >= 2 && nontrivial_text(c, &tc.text, &class, tc.edit1) {
+        ctx.nontrivial(&(c, &tc.text));
+    }
+    Ok(())
+}
+
+//------------ Sub-check: zonefile ----------------------------------------------
+
+struct Tmpl {
+    name: &'static str,
+    codec: Codec,
+    /// The field takes the rest of the entry (any number of tokens) rather
+    /// than one token.
+    entry: bool,
+    pre: &'static str,
+    post: &'static str,
+}
+const TMPLS: [Tmpl; 13] = [
+    Tmpl { name: "DNSKEY", codec: B64, entry: true, pre: "DNSKEY 256 3 8 ", post: "" },
+    Tmpl { name: "CDNSKEY", codec: B64, entry: true, pre: "CDNSKEY 257 3 13 ", post: "" },
+    Tmpl { name: "OPENPGPKEY", codec: B64, entry: true, pre: "OPENPGPKEY ", post: "" },
+    Tmpl { name: "RRSIG", codec: B64, entry: true, pre: "RRSIG A 8 2 3600 20300101000000 20000101000000 12345 example. ", post: "" },
+    Tmpl { name: "IPSECKEY", codec: B64, entry: true, pre: "IPSECKEY 10 0 2 . ", post: "" },
+    Tmpl { name: "DS", codec: B16, entry: true, pre: "DS 12345 8 2 ", post: "" },
+    Tmpl { name: "CDS", codec: B16, entry: true, pre: "CDS 12345 8 2 ", post: "" },
+    Tmpl { name: "SSHFP", codec: B16, entry: true, pre: "SSHFP 1 1 ", post: "" },
+    Tmpl { name: "TLSA", codec: B16, entry: true, pre: "TLSA 3 1 1 ", post: "" },
+    Tmpl { name: "ZONEMD", codec: B16, entry: true, pre: "ZONEMD 2018031900 1 1 ", post: "" },
+    Tmpl { name: "NSEC3PARAM-salt", codec: B16, entry: false, pre: "NSEC3PARAM 1 0 10 ", post: "" },
+    Tmpl { name: "NSEC3-salt", codec: B16, entry: false, pre: "NSEC3 1 0 10 ", post: " 2T7B4G4VSA5SMI47K61MV5BV1A22BOJR A RRSIG" },
+    Tmpl { name: "NSEC3-hash", codec: B32Hex, entry: false, pre: "NSEC3 1 0 10 - ", post: " A RRSIG" },
+];
+
+fn field_octets(t: &Tmpl, data: &ZoneRecordData<bytes::Bytes, domain::zonefile::inplace::ScannedDname>) -> Option<Vec<u8>> {
+    Some(match (t.name, data) {
+        ("DNSKEY", ZoneRecordData::Dnskey(d)) => d.public_key().to_vec(),
+        ("CDNSKEY", ZoneRecordData::Cdnskey(d)) => d.public_key().to_vec(),
+        ("OPENPGPKEY", ZoneRecordData::Openpgpkey(d)) => d.key().to_vec(),
+        ("RRSIG", ZoneRecordData::Rrsig(d)) => d.signature().to_vec(),
+        ("IPSECKEY", ZoneRecordData::Ipseckey(d)) => d.key().to_vec(),
+        ("DS", ZoneRecordData::Ds(d)) => d.digest().to_vec(),
+        ("CDS", ZoneRecordData::Cds(d)) => d.digest().to_vec(),
+        ("SSHFP", ZoneRecordData::Sshfp(d)) => d.fingerprint().to_vec(),
+        ("TLSA", ZoneRecordData::Tlsa(d)) => d.data().to_vec(),
+        ("ZONEMD", ZoneRecordData::Zonemd(d)) => d.digest().to_vec(),
+        ("NSEC3PARAM-salt", ZoneRecordData::Nsec3param(d)) => d.salt().as_slice().to_vec(),
+        ("NSEC3-salt", ZoneRecordData::Nsec3(d)) => d.salt().as_slice().to_vec(),
+        ("NSEC3-hash", ZoneRecordData::Nsec3(d)) => d.next_owner().as_slice().to_vec(),
+        _ => return None,
+    })
+}
+
+/// How the escape sequences planted in a rendering bear on the outcome.
+#[derive(Clone, Copy, PartialEq, Eq, Debug)]
+enum Esc {
+    /// None, or only `\X` with X a printable non-digit: RFC 1035 §5.1 makes
+    /// that X itself, so the outcome is that of the plain text.
+    Transparent,
+    /// A `\DDD` with a printable ASCII value: RFC 1035 reads it as that
+    /// character; the library's converters refuse decimal escapes. No
+    /// outcome is demanded; if accepted the octets must be those of the
+    /// plain text.
+    Decimal,
+    /// A malformed escape (`\` at the end, `\D`, `\DD`, value above 255):
+    /// the token is not well-formed presentation format, must be rejected.
+    Broken,
+}
+
+/// Writes a piece as a token with escape sequences (valid for both the
+/// zone-file reader and `Symbols`); returns the text and whether the
+/// zone-file rendering should put it in double quotes.
+fn render_piece(u: &mut Unstructured, piece: &str, esc: &mut Esc, ctx: &mut Ctx) -> (String, bool) {
+    let chars: Vec<char> = piece.chars().collect();
+    match pick(u, 10) {
+        0 => (piece.to_string(), true),
+        1 => {
+            let mut s = String::new();
+            let mut any = false;
+            for &ch in &chars {
+                // never "\#": as a token of its own that is the RFC 3597
+                // generic-RDATA marker
+                if (0x21..=0x7e).contains(&(ch as u32)) && !ch.is_ascii_digit() && ch != '#' && chance(u, 100) {
+                    s.push('\\');
+                    any = true;
+                }
+                s.push(ch);
+            }
+            if any {
+                ctx.class("escape:simple");
+            }
+            (s, false)
+        }
+        2 if !chars.is_empty() => {
+            // one printable character as \DDD
+            let p = pick(u, chars.len());
+            let mut s = String::new();
+            for (i, &ch) in chars.iter().enumerate() {
+                if i == p && (0x21..=0x7e).contains(&(ch as u32)) {
+                    s.push_str(&format!("\\{:03}", ch as u32));
+                    if *esc == Esc::Transparent {
+                        *esc = Esc::Decimal;
+                    }
+                    ctx.class("escape:decimal");
+                } else {
+                    s.push(ch);
+                }
+            }
+            (s, false)
+        }
+        3 => {
+            // a malformed escape where the next character is not a digit
+            let mut spots: Vec<usize> = (0..=chars.len()).filter(|&i| i == chars.len() || !chars[i].is_ascii_digit()).collect();
+            let lone = flag(u);
+            if lone {
+                // a lone backslash is malformed only at the very end
+                spots = vec![chars.len()];
+            }
+            let p = spots[pick(u, spots.len())];
+            let bad = if lone { "\\" } else { ["\\9", "\\99", "\\256", "\\999", "\\2", "\\25"][pick(u, 6)] };
+            let mut s: String = chars[..p].iter().collect();
+            s.push_str(bad);
+            s.extend(chars[p..].iter());
+            *esc = Esc::Broken;
+            ctx.class("escape:broken");
+            (s, false)
+        }
+        _ => (piece.to_string(), false),
+    }
+}
+
+/// Outcome check under an escape mode.
+fn check_escaped(c: Codec, entry: &str, shown: &str, class: &Class, esc: Esc, got: Result<&[u8], String>) -> CaseResult {
+    match esc {
+        Esc::Transparent => check_outcome(c, entry, shown, class, got),
+        Esc::Broken => check_outcome(c, entry, shown, &Class::Invalid("malformed-escape-sequence"), got),
+        Esc::Decimal => match got {
+            Err(_) => Ok(()),
+            Ok(g) => check_outcome(c, entry, shown, class, Ok(g)),
+        },
+    }
+}
+
+fn run_zonefile(data: &[u8], ctx: &mut Ctx) -> CaseResult {
+    let mut u = Unstructured::new(data);
+    let ti = pick(&mut u, TMPLS.len());
+    let t = &TMPLS[ti];
+    let c = t.codec;
+    let n = c.name();
+    let is_salt = t.name.ends_with("-salt");
+    // text for this codec: token-safe characters only
+    let mut tc = gen_text(&mut u, Some(c), true, false);
+    if is_salt && chance(&mut u, 24) {
+        // RFC 5155 §3.3: "-" is the empty salt; its neighbours are not
+        tc.text = ["-", "--", "-00", "00-", "-\u{2d}"][pick(&mut u, 4)].to_string();
+        tc.edit1 = false;
+    }
+    let chars: Vec<char> = tc.text.chars().filter(|&ch| token_safe(ch)).collect();
+    let text: String = chars.iter().collect();
+    let mut class = rf::classify(c.spec(), &text);
+    if is_salt && text == "-" {
+        class = Class::Canonical(vec![]);
+        ctx.class("zonefile:salt-dash");
+    }
+    if !t.entry && text.is_empty() {
+        // a token cannot be empty
+        ctx.class("zonefile:skipped-empty-token");
+        return Ok(());
+    }
+    if t.name == "IPSECKEY" && matches!(&class, Class::Canonical(v) | Class::TrailingBits(v) if v.is_empty()) {
+        // RFC 4025: no key only with algorithm 0; the record type rejects
+        // this for its own reasons
+        ctx.class("zonefile:skipped-ipseckey-empty-key");
+        return Ok(());
+    }
+    if !t.entry {
+        // NSEC3 salt and hash hold at most 255 octets
+        if let Class::Canonical(v) | Class::TrailingBits(v) = &class {
+            if v.len() > 255 {
+                ctx.class("zonefile:nsec3-field-longer-than-255");
+                class = Class::Invalid("nsec3-field-longer-than-255-octets");
+            }
+        }
+    }
+    classes_for_text(c, &text, &rf::classify(c.spec(), &text), ctx);
+
+    // pieces
+    let pieces: Vec<String> = if t.entry && !chars.is_empty() {
+        let k = pick(&mut u, 6).min(chars.len() - 1);
+        let mut cuts: Vec<usize> = (0..k).map(|_| 1 + pick(&mut u, chars.len() - 1)).collect();
+        cuts.sort();
+        cuts.dedup();
+        split_at_cuts(&chars, &cuts)
+    } else if chars.is_empty() {
+        vec![]
+    } else {
+        vec![text.clone()]
+    };
+    ctx.class(format!("zonefile:tokens-{}", match pieces.len() { 0 => "0", 1 => "1", 2..=3 => "2-3", _ => "4+" }));
+
+    // render
+    let mut esc = Esc::Transparent;
+    let mut need_parens = flag(&mut u);
+    let mut body = String::new();
+    let mut tokens: Vec<String> = vec![];
+    for (i, p) in pieces.iter().enumerate() {
+        if i > 0 {
+            let sep = match pick(&mut u, 7) {
+                0 => "\t",
+                1 => "  \t ",
+                2 => {
+                    need_parens = true;
+                    ctx.class("zonefile:newline-between-tokens");
+                    "\n"
+                }
+                3 => {
+                    need_parens = true;
+                    ctx.class("zonefile:comment-between-tokens");
+                    " ; Zg== 00 CO\n  "
+                }
+                4 => {
+                    need_parens = true;
+                    "\r\n\t"
+                }
+                _ => " ",
+            };
+            body.push_str(sep);
+        }
+        let (tok, quoted) = render_piece(&mut u, p, &mut esc, ctx);
+        if quoted {
+            ctx.class("zonefile:quoted-token");
+            body.push('"');
+            body.push_str(&tok);
+            body.push('"');
+        } else {
+            body.push_str(&tok);
+        }
+        tokens.push(tok);
+    }
+    let rdata = if need_parens {
+        ctx.class("zonefile:parenthesised");
+        match pick(&mut u, 3) {
+            0 => format!("{}( {} ){}", t.pre, body, t.post),
+            1 => format!("{}(\n\t{}\n){}", t.pre, body, t.post),
+            _ => format!("( {}{}{} )", t.pre, body, t.post),
+        }
+    } else {
+        format!("{}{}{}", t.pre, body, t.post)
+    };
+    let zone = format!("x.example. 3600 IN {rdata}\nnext.example. 3600 IN A 192.0.2.1\n");
+    ctx.sample(|| format!("{} field of {}: {:?}", n, t.name, show(&zone)));
+
+    let mut zf = Zonefile::from(zone.as_str());
+    let first = zf.next_entry();
+    let got: Result<Vec<u8>, String> = match first {
+        Ok(Some(Entry::Record(rec))) => match field_octets(t, rec.data()) {
+            Some(v) => Ok(v),
+            None => vfail!(format!("zonefile:{}:wrong-record-type", t.name), "{:?} parsed to {:?}", show(&zone), rec.data()),
+        },
+        Ok(Some(other)) => vfail!(format!("zonefile:{}:not-a-record", t.name), "{:?} parsed to {other:?}", show(&zone)),
+        Ok(None) => vfail!(format!("zonefile:{}:no-entry", t.name), "{:?} gave no entry", show(&zone)),
+        Err(e) => Err(e.to_string()),
+    };
+    ctx.class(format!("zonefile:{}:{}", t.name, if got.is_ok() { "accepted" } else { "rejected" }));
+    check_escaped(c, &format!("zonefile:{}", t.name), &zone, &class, esc, got.as_ref().map(|v| &v[..]).map_err(|e| e.clone()))?;
+    if got.is_ok() {
+        // the reader is still in step: the next line is the A record
+        match zf.next_entry() {
+            Ok(Some(Entry::Record(rec))) => {
+                let ok = rec.owner().name_eq(&Name::<Vec<u8>>::from_str("next.example.").unwrap()) && matches!(rec.data(), ZoneRecordData::A(a) if a.addr() == std::net::Ipv4Addr::new(192, 0, 2, 1));
+                vensure!(ok, format!("zonefile:{}:next-record-damaged", t.name), "after {:?} the next record reads {rec:?}", show(&zone));
+            }
+            other => vfail!(format!("zonefile:{}:next-record-lost", t.name), "after {:?} the next entry is {other:?}", show(&zone)),
+        }
+        match zf.next_entry() {
+            Ok(None) => {}
+            other => vfail!(format!("zonefile:{}:spurious-entry", t.name), "after both records of {:?}: {other:?}", show(&zone)),
+        }
+    }
+
+    // the same tokens (escapes included, no quoting) through IterScanner
+    let shown = tokens.join(" ");
+    if t.entry {
+        let r = iter_entry(c, &tokens);
+        check_escaped(c, "iterscanner-entry", &shown, &class, esc, r.as_ref().map(|v| &v[..]).map_err(|e| e.clone()))?;
+        if tokens.len() == 1 {
+            let r = iter_token(c, &tokens[0]);
+            check_escaped(c, "iterscanner-token", &shown, &class, esc, r.as_ref().map(|v| &v[..]).map_err(|e| e.clone()))?;
+        }
+    } else {
+        let mut sc = IterScanner::<_, Vec<u8>>::new(std::iter::once(tokens[0].as_str()));
+        let r: R = if is_salt {
+            Nsec3Salt::scan(&mut sc).map(|s| s.as_slice().to_vec()).map_err(|e| e.to_string())
+        } else {
+            OwnerHash::scan(&mut sc).map(|s| s.as_slice().to_vec()).map_err(|e| e.to_string())
+        };
+        check_escaped(c, if is_salt { "nsec3salt-scan" } else { "ownerhash-scan" }, &shown, &class, esc, r.as_ref().map(|v| &v[..]).map_err(|e| e.clone()))?;
+    }
+    if nontrivial_text(c, &text, &class, tc.edit1) {
+        ctx.nontrivial(&(ti, &zone));
+    }
+    Ok(())
+}
+
+//------------ Health ------------------------------------------------------------
+
+fn health(c: &BTreeMap<String, u64>, _t: bool) -> Result<(), String> {
+    let mut need: Vec<String> = vec![];
+    for r in TABLE.iter().filter(|r| r.lib.is_some()) {
+        let n = r.name;
+        let block = r.spec.block();
+        for l in ["canonical", "invalid", "lib-accepts", "invalid:non-alphabet-character", "octets-full-blocks"] {
+            need.push(format!("{n}:{l}"));
+        }
+        if r.spec.bits != 4 {
+            need.push(format!("{n}:octets-partial-block"));
+        }
+        for i in 0..block {
+            need.push(format!("{n}:len%{block}={i}"));
+        }
+        if r.spec.bits != 4 {
+            need.push(format!("{n}:noncanonical-trailing-bits"));
+            need.push(format!("{n}:invalid:impossible-final-group-length"));
+        }
+    }
+    for k in [
+        "b64:pad-count=1", "b64:pad-count=2", "b64:pad-count=3", "b64:pad-count=4", "b64:invalid:wrong-padding-count", "b64:invalid:data-after-padding", "b32hex:invalid:padding-not-allowed", "b64:lib-error:IllegalChar", "b64:lib-error:TrailingInput",
+        "b64:lib-error:ShortInput", "b32hex:lib-error:ShortInput", "b16:lib-error:ShortInput", "pad-in-the-middle", "pad-at-start", "empty-text", "char:non-ascii", "char:nul", "char:whitespace", "char:url-safe", "char:lower-case",
+        "rejected-one-edit-from-valid", "op:valid", "op:set-trailing-bits", "op:set-pad-count", "op:pad-in-the-middle", "op:truncate", "chunking:all-splits", "chunking:every-single-cut", "chunking:sampled-splits", "zonefile:parenthesised",
+        "zonefile:newline-between-tokens", "zonefile:comment-between-tokens", "zonefile:tokens-4+", "zonefile:quoted-token", "zonefile:salt-dash", "escape:simple", "escape:decimal", "escape:broken", "b64:octets-len-1024-4096", "b16:octets-len-1024-4096", "b32hex:octets-len-1024-4096",
+    ] {
+        need.push(k.to_string());
+    }
+    for t in &TMPLS {
+        need.push(format!("zonefile:{}:accepted", t.name));
+        need.push(format!("zonefile:{}:rejected", t.name));
+    }
+    for k in need {
+        if c.get(&k).copied().unwrap_or(0) < 5 {
+            return Err(format!("class {k} starved ({:?})", c.get(&k)));
+        }
+    }
+    Ok(())
+}
+
+pub fn prop() -> Prop {
+    Prop {
+        id: "C18",
+        rule: "case = (codec, octet string) or (codec, text[, split into pieces / zone-file rendering]); non-trivial = text length not a multiple of the codec's block (2/8/4 symbols), or text contains '=', or text is rejected by the reference and is one single-character edit away from a valid encoding (octet cases: length not a multiple of the block's octet count 1/5/3); distinct by (codec, text or octets)",
+        assumptions: &[
+            "reference: independent RFC 4648 transcoder (props/c18/rfc4648.rs, unit-tested on the RFC 4648 section 10 vectors), configured per module from the module docs: Base16 case-insensitive; Base32hex unpadded and case-insensitive; Base64 padded, case-sensitive",
+            "non-zero pad bits in the last symbol (RFC 4648 section 3.5) have no demanded outcome: accept or reject, octets as the lenient reference if accepted",
+            "standard-alphabet Base32 is not implemented by the library at this commit (base32.rs: 'currently only implements base32hex'); nothing to test",
+            "Decoder::push takes one char, so splitting the text over calls is trivial there; chunking is exercised as token boundaries (EndOfToken symbols, IterScanner tokens, zone-file tokens incl. parentheses, newlines, comments)",
+            "SymbolConverter is not called again after it returned an error (no documented contract for that); Decoder::push is (its doc allows it)",
+        ],
+        subchecks: vec![
+            SubCheck::sweep("octets_sweep", run_octets_sweep, |_| SWEEP_OCTETS),
+            SubCheck::sweep("text_sweep", run_text_sweep, text_sweep_total),
+            SubCheck::new("roundtrip", run_roundtrip, 250_000, 3_000_000, 600),
+            SubCheck::new("mutated_text", run_mutated, 800_000, 10_000_000, 400),
+            SubCheck::new("chunking", run_chunking, 160_000, 2_000_000, 300),
+            SubCheck::new("zonefile", run_zonefile, 250_000, 3_000_000, 400),
+            SubCheck::new("text_raw", run_text_raw, 300_000, 4_000_000, 200),
+        ],
+        health: Some(health),
+        extra: None,
+    }
 }
